@@ -74,6 +74,7 @@ type EntryResult struct {
 
 type workItem struct {
 	prefix []int32
+	cv     []uint64
 	model  map[string]uint64
 }
 
@@ -135,14 +136,14 @@ func Explore(sh *Shared, entry *ssa.Function, entryName string, lim Limits) *Ent
 			wantSample := lim.Samples > 0 && (started <= 2 || h.Sum32()%17 == 0)
 			mu.Unlock()
 
-			pr := runPathSafe(ex, entry, entryName, it.prefix, it.model, wantSample)
+			pr := runPathSafe(ex, entry, entryName, it.prefix, it.cv, it.model, wantSample)
 			npaths++
 			if pr.Outcome == "realign" {
 				// solver stack reuse failed its consistency check: redo the path on a clean solver
 				sol.Reset()
 				ex.prevValid = false
 				realigns++
-				pr = runPathSafe(ex, entry, entryName, it.prefix, it.model, wantSample)
+				pr = runPathSafe(ex, entry, entryName, it.prefix, it.cv, it.model, wantSample)
 			}
 			if npaths%5000 == 0 {
 				// keep solver memory bounded
@@ -157,7 +158,11 @@ func Explore(sh *Shared, entry *ssa.Function, entryName string, lim Limits) *Ent
 				if i < len(pr.SibModels) {
 					m = pr.SibModels[i]
 				}
-				frontier = append(frontier, workItem{prefix: s, model: m})
+				var cv []uint64
+				if i < len(pr.SibCVs) {
+					cv = pr.SibCVs[i]
+				}
+				frontier = append(frontier, workItem{prefix: s, cv: cv, model: m})
 			}
 			res.Decisions += int64(len(pr.Decisions))
 			res.Unforced += int64(pr.Unforced)
@@ -274,7 +279,7 @@ func Explore(sh *Shared, entry *ssa.Function, entryName string, lim Limits) *Ent
 	return res
 }
 
-func runPathSafe(ex *Exec, entry *ssa.Function, entryName string, prefix []int32, model map[string]uint64, wantSample bool) (pr PathResult) {
+func runPathSafe(ex *Exec, entry *ssa.Function, entryName string, prefix []int32, cv []uint64, model map[string]uint64, wantSample bool) (pr PathResult) {
 	defer func() {
 		if r := recover(); r != nil {
 			pr = PathResult{Outcome: "engine", Msg: fmt.Sprintf("interpreter crash: %v%s\n%s", r, ex.where(), trimStack(debug.Stack())), Decisions: ex.decisions, Siblings: ex.siblings}
@@ -282,7 +287,7 @@ func runPathSafe(ex *Exec, entry *ssa.Function, entryName string, prefix []int32
 			ex.prevValid = false
 		}
 	}()
-	return ex.RunPath(entry, entryName, prefix, model, wantSample)
+	return ex.RunPath(entry, entryName, prefix, cv, model, wantSample)
 }
 
 func trimStack(b []byte) string {
